@@ -1,7 +1,7 @@
 import json, os, shutil, sys
 # usage: add.py <id> <prop> <m> <also,comma> <summary> <needs>
 sid,prop,m,also,summary,needs=sys.argv[1:7]
-src=f"/tmp/seed/{prop}/out/{m}"
+src=os.environ.get("SEED_SRC") or f"/tmp/seed/{prop}/out/{m}"
 dst=f"/verif/seeded/{sid}"
 os.makedirs(dst,exist_ok=True)
 for f in ("patch.diff","demo.rs","README.md"):
